@@ -265,6 +265,10 @@ def extract(tree):
     unroot_fns = set(fnname for f, fnname, kind, arg in res["roots"] if kind == "unroot" and f == "ev.c")
     res["tchan_unroot"] = {"cb": "janet_thread_chan_cb" in unroot_fns, "close": "cfun_channel_close" in unroot_fns,
                            "deinit": "janet_chan_deinit" in unroot_fns}
+    sp = [gs for f, fnname, k, gs in res["counter"] if fnname == "janet_ev_handle_selfpipe" and k == "-"]
+    if len(sp) != 1:
+        raise ExtractError("janet_ev_handle_selfpipe: expected exactly one decrement of listener_count, found %d" % len(sp))
+    res["selfpipe_dec_needs_cb"] = any("response.cb" in g for g in sp[0])
     return res
 
 
@@ -301,6 +305,8 @@ def render(tree):
     o.append("abbrev tchanUnrootCb : Bool := %s" % ("true" if t["cb"] else "false"))
     o.append("abbrev tchanUnrootClose : Bool := %s" % ("true" if t["close"] else "false"))
     o.append("abbrev tchanUnrootDeinit : Bool := %s" % ("true" if t["deinit"] else "false"))
+    o.append("/-- does janet_ev_handle_selfpipe decrement listener_count only for events with a callback? -/")
+    o.append("abbrev selfpipeDecNeedsCb : Bool := %s" % ("true" if r["selfpipe_dec_needs_cb"] else "false"))
     o.append("")
     o.append("end JanetModel.Gen.Loop")
     return "\n".join(o) + "\n"
